@@ -37,7 +37,14 @@ void registerBase64(std::map<std::string, Op>& ops)
         try {
             Pistache::Http::Header::Authorization a;
             a.setBasicUserPassword(u, p);
-            return "ok " + toHex(a.value()) + " " + toHex(a.getBasicUser()) + " " + toHex(a.getBasicPassword());
+            std::string fresh = "ok " + toHex(a.value()) + " " + toHex(a.getBasicUser()) + " " + toHex(a.getBasicPassword());
+            // the same on a header object that lives across the lines of this run: it was set AND read before (by the previous line);
+            // what it answers now must depend on what is set now only
+            static Pistache::Http::Header::Authorization kept;
+            kept.setBasicUserPassword(u, p);
+            std::string again = "ok " + toHex(kept.value()) + " " + toHex(kept.getBasicUser()) + " " + toHex(kept.getBasicPassword());
+            if (again != fresh) return fresh + " REUSED-OBJECT-DIFFERS[" + again + "]";
+            return fresh;
         } catch (const std::exception& e) { return "err " + excName(e); }
     };
     ops["basicget"] = [](const std::vector<std::string>& w) -> std::string {
@@ -45,6 +52,9 @@ void registerBase64(std::map<std::string, Op>& ops)
         try {
             Pistache::Http::Header::Authorization a(v);
             std::string u = a.getBasicUser(); std::string p = a.getBasicPassword();
+            static Pistache::Http::Header::Authorization kept;      // parsed and read again and again
+            kept.parse(v);
+            if (kept.getBasicUser() != u || kept.getBasicPassword() != p) return "ok " + toHex(u) + " " + toHex(p) + " REUSED-OBJECT-DIFFERS";
             return "ok " + toHex(u) + " " + toHex(p);
         } catch (const std::exception& e) { return "err " + excName(e); }
     };
